@@ -135,11 +135,15 @@ def make_cases(tier):
             base.append(A.case("c08dup2-%d-%d-lazy" % (j, src), f, src, "lazy"))
     # all stanzas match at the same node, so the stanza order is the processing order: two definitions of one variable on that node,
     # with definitions of the same name on OTHER nodes (children reached through a capture) between them in some orders only
-    base.append(A.case("c08sep-lazy", A.file([
-        A.stanza(qm, [A.let(sv("v"), A.string("a"))]),
-        A.stanza("(module (_) @c) @_m ", [A.let(A.svar(A.cap("c"), "v"), A.string("b"))]),
-        A.stanza(qm, [A.let(sv("v"), A.string("d"))]),
-    ]), 2, "lazy"))
+    for j, (kind, src) in enumerate([("pass_statement", 1), ("expression_statement", 2), ("_", 5)]):
+        # (the three patterns have the same shape, so that their matches are reported together and the stanza order decides)
+        qa = "(module (%s) @_p) @m " % kind
+        qb = "(module (%s) @p) @_m " % kind
+        base.append(A.case("c08sep-%d-lazy" % j, A.file([
+            A.stanza(qa, [A.let(sv("v"), A.string("a"))]),
+            A.stanza(qb, [A.let(A.svar(A.cap("p"), "v"), A.string("b"))]),
+            A.stanza(qa, [A.let(sv("v"), A.string("d"))]),
+        ]), src, "lazy"))
     base.append(A.case("c08sep2-lazy", A.file([
         A.stanza(qm, [A.let(sv("v"), A.string("a")), A.node(sv("n")), A.attrn(sv("n"), A.attr("v", sv("v")))]),
         A.stanza("(module (_)* @cs) @_m ", [A.forin("c", A.cap("cs"), [A.let(A.svar(A.var("c"), "v"), A.string("b"))])]),
